@@ -94,13 +94,15 @@ func (s *Server) Start() {
 			"protocol", ProtocolName,
 			"connection_id", s.callbackContext.ConnectionId.String(),
 		)
+	// We create our own vars for these channels since they get replaced on restart.
+	// They must be read before the protocol starts: once it runs, a Done from the
+	// peer can replace them (handleDone) before the cleanup goroutine is scheduled.
+	requestTxIdsResultChan := s.requestTxIdsResultChan
+	requestTxsResultChan := s.requestTxsResultChan
+	doneChan := p.DoneChan()
 	p.Start()
 	// Start goroutine to cleanup resources on protocol shutdown
-	doneChan := p.DoneChan()
 	go func() {
-		// We create our own vars for these channels since they get replaced on restart
-		requestTxIdsResultChan := s.requestTxIdsResultChan
-		requestTxsResultChan := s.requestTxsResultChan
 		<-doneChan
 		close(requestTxIdsResultChan)
 		close(requestTxsResultChan)
